@@ -155,3 +155,145 @@ pub fn eval(t: &Term, input: &Rc<RV>, cmr_of: &dyn Fn(&Term) -> [u8; 32]) -> Res
         }
     })
 }
+
+/// What the Bit Machine's `ExecTracker` is documented to see for one visited node.
+#[derive(Clone, Debug, PartialEq, Eq)]
+pub enum TOut {
+    NonTerminal,
+    JetFailed,
+    Success(Rc<RV>),
+}
+
+#[derive(Clone, Debug, PartialEq, Eq)]
+pub struct TraceEv {
+    pub kind: &'static str,
+    pub input: Rc<RV>,
+    pub out: TOut,
+}
+
+impl std::fmt::Display for TraceEv {
+    fn fmt(&self, f: &mut std::fmt::Formatter) -> std::fmt::Result {
+        match &self.out {
+            TOut::NonTerminal => write!(f, "{}({})", self.kind, self.input),
+            TOut::JetFailed => write!(f, "{}({})=FAIL", self.kind, self.input),
+            TOut::Success(v) => write!(f, "{}({})={}", self.kind, self.input, v),
+        }
+    }
+}
+
+/// Big-step semantics that also records, in execution (pre-)order, every sub-term that is evaluated together with
+/// the value it is applied to and - for unit, iden, witness and jets - the value it returns. A node whose own
+/// evaluation fails without running a child (fail, an assertion on its hidden side) is not recorded, a jet that
+/// rejects its input is recorded as JetFailed: this is the tracker contract of bit_machine/tracker.rs.
+pub fn eval_traced(t: &Term, input: &Rc<RV>, cmr_of: &dyn Fn(&Term) -> [u8; 32], tr: &std::cell::RefCell<Vec<TraceEv>>) -> Result<Rc<RV>, Failure> {
+    let push = |kind: &'static str, out: TOut| tr.borrow_mut().push(TraceEv { kind, input: input.clone(), out });
+    let split = |what: &str| -> (Rc<RV>, Rc<RV>) {
+        match &**input {
+            RV::Pair(a, b) => (a.clone(), b.clone()),
+            _ => panic!("{what} on a non-pair"),
+        }
+    };
+    Ok(match &t.tm {
+        Tm::Iden => {
+            push("iden", TOut::Success(input.clone()));
+            input.clone()
+        }
+        Tm::Unit => {
+            push("unit", TOut::Success(RV::unit()));
+            RV::unit()
+        }
+        Tm::InjL(s) => {
+            push("injl", TOut::NonTerminal);
+            RV::l(&eval_traced(s, input, cmr_of, tr)?)
+        }
+        Tm::InjR(s) => {
+            push("injr", TOut::NonTerminal);
+            RV::r(&eval_traced(s, input, cmr_of, tr)?)
+        }
+        Tm::Take(s) => {
+            push("take", TOut::NonTerminal);
+            eval_traced(s, &split("take").0, cmr_of, tr)?
+        }
+        Tm::Drop(s) => {
+            push("drop", TOut::NonTerminal);
+            eval_traced(s, &split("drop").1, cmr_of, tr)?
+        }
+        Tm::Comp(a, b) => {
+            push("comp", TOut::NonTerminal);
+            let mid = eval_traced(a, input, cmr_of, tr)?;
+            eval_traced(b, &mid, cmr_of, tr)?
+        }
+        Tm::Pair(a, b) => {
+            push("pair", TOut::NonTerminal);
+            let x = eval_traced(a, input, cmr_of, tr)?;
+            let y = eval_traced(b, input, cmr_of, tr)?;
+            RV::pair(&x, &y)
+        }
+        Tm::Case(a, b) => {
+            push("case", TOut::NonTerminal);
+            let (s, c) = split("case");
+            match &*s {
+                RV::L(x) => eval_traced(a, &RV::pair(x, &c), cmr_of, tr)?,
+                RV::R(y) => eval_traced(b, &RV::pair(y, &c), cmr_of, tr)?,
+                _ => panic!("case on a non-sum"),
+            }
+        }
+        Tm::AssertL(a, _) => {
+            let (s, c) = split("assertl");
+            match &*s {
+                RV::L(x) => {
+                    push("assertl", TOut::NonTerminal);
+                    eval_traced(a, &RV::pair(x, &c), cmr_of, tr)?
+                }
+                RV::R(_) => return Err(Failure::Assert),
+                _ => panic!("assertl on a non-sum"),
+            }
+        }
+        Tm::AssertR(_, b) => {
+            let (s, c) = split("assertr");
+            match &*s {
+                RV::R(y) => {
+                    push("assertr", TOut::NonTerminal);
+                    eval_traced(b, &RV::pair(y, &c), cmr_of, tr)?
+                }
+                RV::L(_) => return Err(Failure::Assert),
+                _ => panic!("assertr on a non-sum"),
+            }
+        }
+        Tm::Witness(v) => {
+            push("witness", TOut::Success(v.clone()));
+            v.clone()
+        }
+        Tm::Word(n, v) => {
+            push("word", TOut::NonTerminal);
+            RV::word(*n as usize, *v as u128)
+        }
+        Tm::Fail(_) => return Err(Failure::FailNode),
+        Tm::Jet(name) => {
+            let f = jet_semantics(name).unwrap_or_else(|| panic!("no reference semantics for jet {name}"));
+            match f(&flat(input)) {
+                Some(bits) => {
+                    let v = unflat(&t.tgt, &bits);
+                    push("jet", TOut::Success(v.clone()));
+                    v
+                }
+                None => {
+                    push("jet", TOut::JetFailed);
+                    return Err(Failure::Jet);
+                }
+            }
+        }
+        Tm::Disconnect(s, r) => {
+            push("disconnect", TOut::NonTerminal);
+            let h = RV::word_bytes(&cmr_of(r));
+            let bc = eval_traced(s, &RV::pair(&h, input), cmr_of, tr)?;
+            match &*bc {
+                RV::Pair(b, c) => {
+                    let d = eval_traced(r, c, cmr_of, tr)?;
+                    RV::pair(b, &d)
+                }
+                _ => panic!("disconnect: left result is not a pair"),
+            }
+        }
+    })
+}
